@@ -88,12 +88,12 @@ Proof.
 Qed.
 
 (* one action: call unchanged, local well-formedness kept, and flying moves
-   exactly with "was admitted" / "has decremented" of the acting thread *)
+   exactly with "was granted" / "has decremented" of the acting thread *)
 Lemma act_effect : forall sh ths t sh' t', lwf t -> act sh ths t = (sh', t') ->
   tcall t' = tcall t /\ lwf t' /\ senabled sh' = senabled sh /\
   flying sh' - flying sh =
-    (b2z (is_admitted t') - b2z (is_admitted t)) - (b2z (has_decremented t') - b2z (has_decremented t)) /\
-  (is_admitted t = true -> is_admitted t' = true) /\
+    (b2z (is_granted t') - b2z (is_granted t)) - (b2z (has_decremented t') - b2z (has_decremented t)) /\
+  (is_granted t = true -> is_granted t' = true) /\
   (has_decremented t = true -> has_decremented t' = true) /\
   (has_decremented t' = true -> has_decremented t = true \/
      exists p, target (tcall t) = Some p /\ promise_of ths p <> None).
@@ -102,8 +102,8 @@ Proof.
   assert (Hsame : (sh', t') = (sh, t) ->
      tcall t' = tcall t /\ lwf t' /\ senabled sh' = senabled sh /\
      flying sh' - flying sh =
-       (b2z (is_admitted t') - b2z (is_admitted t)) - (b2z (has_decremented t') - b2z (has_decremented t)) /\
-     (is_admitted t = true -> is_admitted t' = true) /\
+       (b2z (is_granted t') - b2z (is_granted t)) - (b2z (has_decremented t') - b2z (has_decremented t)) /\
+     (is_granted t = true -> is_granted t' = true) /\
      (has_decremented t = true -> has_decremented t' = true) /\
      (has_decremented t' = true -> has_decremented t = true \/
         exists p, target (tcall t) = Some p /\ promise_of ths p <> None)).
@@ -117,13 +117,13 @@ Proof.
     + assert (Hn : tres t = None) by (unfold lwf in Hl; rewrite Ec in Hl; auto).
       destruct (allow_act_cases _ _ _ _ _ _ _ Hn Hle Hact) as (Hc & He & Hcases).
       rewrite (Hd t eq_refl), (Hd t' Hc).
-      assert (Ha : is_admitted t = false) by (unfold is_admitted; rewrite Hn; reflexivity).
+      assert (Ha : is_granted t = false) by (unfold is_granted; rewrite Hn; reflexivity).
       rewrite Ha.
       split; [congruence|]. split.
       { unfold lwf. rewrite Hc, Ec. intros Hp.
         destruct Hcases as [(Hr & _)|[(_ & _ & Hp')|(_ & _ & Hp')]]; [exact Hr|lia|lia]. }
       split; [exact He|].
-      unfold is_admitted.
+      unfold is_granted.
       destruct Hcases as [(Hr & Hf & _)|[(Hr & Hf & _)|(Hr & Hf & _)]]; rewrite Hr; cbn [b2z];
         (split; [lia|]); (split; [discriminate|]); (split; discriminate).
     + apply Hsame. rewrite <- Hact. unfold allow_act.
@@ -132,8 +132,8 @@ Proof.
     destruct (promise_of ths p) as [st|] eqn:Ep; [|apply Hsame; congruence].
     assert (Hn : tres t <> Some RAdmit) by (unfold lwf in Hl; rewrite Ec in Hl; exact Hl).
     destruct (resolve_act_cases _ _ _ _ _ _ Hn Hact) as (Hc & He & Hn' & Hcases).
-    assert (Ha : forall t1, tres t1 <> Some RAdmit -> is_admitted t1 = false).
-    { intros t1 H1. unfold is_admitted. destruct (tres t1) as [[]|]; congruence. }
+    assert (Ha : forall t1, tres t1 <> Some RAdmit -> is_granted t1 = false).
+    { intros t1 H1. unfold is_granted. destruct (tres t1) as [[]|]; congruence. }
     rewrite (Ha t Hn), (Ha t' Hn').
     split; [congruence|]. split; [unfold lwf; rewrite Hc, Ec; exact Hn'|]. split; [exact He|].
     unfold has_decremented. rewrite Hc, Ec. cbn [target].
@@ -147,8 +147,8 @@ Proof.
     destruct (promise_of ths p) as [st|] eqn:Ep; [|apply Hsame; congruence].
     assert (Hn : tres t <> Some RAdmit) by (unfold lwf in Hl; rewrite Ec in Hl; exact Hl).
     destruct (resolve_act_cases _ _ _ _ _ _ Hn Hact) as (Hc & He & Hn' & Hcases).
-    assert (Ha : forall t1, tres t1 <> Some RAdmit -> is_admitted t1 = false).
-    { intros t1 H1. unfold is_admitted. destruct (tres t1) as [[]|]; congruence. }
+    assert (Ha : forall t1, tres t1 <> Some RAdmit -> is_granted t1 = false).
+    { intros t1 H1. unfold is_granted. destruct (tres t1) as [[]|]; congruence. }
     rewrite (Ha t Hn), (Ha t' Hn').
     split; [congruence|]. split; [unfold lwf; rewrite Hc, Ec; exact Hn'|]. split; [exact He|].
     unfold has_decremented. rewrite Hc, Ec. cbn [target].
@@ -165,7 +165,7 @@ Qed.
 
 Definition cinv (m : machine) : Prop :=
   Forall lwf (snd m) /\
-  flying (fst m) = countb is_admitted (snd m) - countb has_decremented (snd m).
+  flying (fst m) = countb is_granted (snd m) - countb has_decremented (snd m).
 
 Lemma nth_error_Forall : forall {A} (P : A -> Prop) l i x,
   Forall P l -> nth_error l i = Some x -> P x.
@@ -181,7 +181,7 @@ Proof.
   destruct (act_effect _ _ _ _ _ (nth_error_Forall _ _ _ _ Hl E) Ea) as (Hc & Hl' & _ & Hd & _).
   split; cbn [fst snd].
   - apply Forall_upd_nth; assumption.
-  - rewrite (countb_upd is_admitted ths tid t t' E), (countb_upd has_decremented ths tid t t' E). lia.
+  - rewrite (countb_upd is_granted ths tid t t' E), (countb_upd has_decremented ths tid t t' E). lia.
 Qed.
 
 Lemma crun_inv : forall sched m, cinv m -> cinv (crun m sched).
@@ -191,10 +191,10 @@ Proof.
 Qed.
 
 Lemma start_counts : forall calls,
-  countb is_admitted (map fresh calls) = 0 /\ countb has_decremented (map fresh calls) = 0.
+  countb is_granted (map fresh calls) = 0 /\ countb has_decremented (map fresh calls) = 0.
 Proof.
   unfold countb. induction calls as [|c calls [IH1 IH2]]; [split; reflexivity|].
-  cbn [map filter]. unfold is_admitted at 1, has_decremented at 1. cbn [fresh tres tpc tcall].
+  cbn [map filter]. unfold is_granted at 1, has_decremented at 1. cbn [fresh tres tpc tcall].
   destruct (target c); cbn; auto.
 Qed.
 
@@ -209,7 +209,7 @@ Qed.
 (* in-flight conservation, for every set of concurrent calls and every schedule *)
 Lemma conc_conservation_core : forall c t0 calls sched,
   flying (fst (crun (start c t0 calls) sched)) =
-  countb is_admitted (snd (crun (start c t0 calls) sched)) -
+  countb is_granted (snd (crun (start c t0 calls) sched)) -
   countb has_decremented (snd (crun (start c t0 calls) sched)).
 Proof.
   intros. apply (crun_inv sched (start c t0 calls)). apply start_inv.
@@ -237,16 +237,16 @@ Qed.
 
 Lemma promise_stable : forall ths tid t t' p,
   nth_error ths tid = Some t -> tcall t' = tcall t ->
-  (is_admitted t = true -> is_admitted t' = true) ->
+  (is_granted t = true -> is_granted t' = true) ->
   promise_of ths p <> None -> promise_of (upd_nth tid t' ths) p <> None.
 Proof.
   intros ths tid t t' p E Hc Ha Hp. unfold promise_of in *.
   destruct (Nat.eq_dec tid p) as [->|Hne].
   - rewrite (nth_error_upd_eq _ _ _ _ E). rewrite E in Hp. rewrite Hc.
     destruct (tcall t); try congruence.
-    assert (Hx : is_admitted t = true).
-    { unfold is_admitted. destruct (tres t) as [[]|]; congruence. }
-    apply Ha in Hx. unfold is_admitted in Hx. destruct (tres t') as [[]|]; congruence.
+    assert (Hx : is_granted t = true).
+    { unfold is_granted. destruct (tres t) as [[]|]; congruence. }
+    apply Ha in Hx. unfold is_granted in Hx. destruct (tres t') as [[]|]; congruence.
   - rewrite nth_error_upd_neq by exact Hne. exact Hp.
 Qed.
 
@@ -362,15 +362,15 @@ Proof.
   pose proof (crun_inv2 calls sched _ (start_inv c t0 calls) (start_inv2 c t0 calls)) as [Hm Hd].
   set (m := crun (start c t0 calls) sched) in *. set (ths := snd m) in *.
   rewrite Hf. unfold countb.
-  rewrite <- dec_targets_length, <- (filter_seq_length is_admitted ths).
+  rewrite <- dec_targets_length, <- (filter_seq_length is_granted ths).
   assert (Hincl : incl (dec_targets ths)
-                       (filter (fun i => is_admitted (nth i ths dummy)) (seq 0 (length ths)))).
+                       (filter (fun i => is_granted (nth i ths dummy)) (seq 0 (length ths)))).
   { intros p Hp. destruct (dec_targets_sound _ _ Hp) as (i & t & Hi & Hdec & Ht).
     destruct (Hd i t Hi Hdec) as (p' & Ht' & Hpr). rewrite Ht in Ht'. inversion Ht'; subst p'.
     unfold promise_of in Hpr. destruct (nth_error ths p) as [tp|] eqn:Ep; [|congruence].
     apply filter_In. split.
     - apply in_seq. split; [lia|]. cbn. apply nth_error_Some. congruence.
-    - rewrite (nth_error_nth _ _ _ Ep). unfold is_admitted.
+    - rewrite (nth_error_nth _ _ _ Ep). unfold is_granted.
       destruct (tcall tp); try congruence. destruct (tres tp) as [[]|]; congruence. }
   assert (Hnd' : NoDup (dec_targets ths)).
   { apply dec_targets_nodup. replace (map tcall ths) with calls by (symmetry; exact Hm). exact Hnd. }
